@@ -53,6 +53,10 @@ def main() -> int:
             from checks import c15
 
             return c15.run(tier, a.seed)
+        if a.prop == "C18":
+            from checks import c18
+
+            return c18.run(tier, a.seed)
         print(f"no check registered for {a.prop}")
         return 3
     except Exception:  # noqa: BLE001
